@@ -65,8 +65,10 @@
  *     delimiters / cut positions behind the point of failure;
  *   - the encoder in front of a sink that writes short, interrupts or fails:
  *     a hard error comes back unchanged; -EAGAIN/-EINTR come back unchanged
- *     or are retried; and whenever encode reports success, what reached the
- *     sink is a complete encoding (all encoding clauses + decode round trip).
+ *     or are retried (when the sink answered several errors in one execution,
+ *     any of the codes it answered is "unchanged"; a code it never answered
+ *     is not); and whenever encode reports success, what reached the sink is
+ *     a complete encoding (all encoding clauses + decode round trip).
  */
 #include "mc.h"
 
@@ -1218,10 +1220,13 @@ family_macro(void)
         mc_end(true, "worst-case-macro");
     }
     /* The same for lengths of type size_t / uint64_t around every power of
-     * two up to the largest n whose bound 2n+2 is still a size_t (a payload
-     * that long is a stream, not a buffer: the encoder has no length limit),
-     * and for arguments that are expressions.  Pure arithmetic, no memory. */
-    const int kmax = (int)(sizeof(size_t) * 8) - 1;
+     * two (a payload that long is a stream, not a buffer: the encoder has no
+     * length limit), and for arguments that are expressions.  Pure
+     * arithmetic, no memory.  Lengths with headroom only, n <= SIZE_MAX/4:
+     * a conservative macro (2n plus some slack, 3n, ...) is admissible and
+     * wraps by the language's own rules before 2n+2 does, so nothing is
+     * demanded where the bound itself is within a factor two of SIZE_MAX. */
+    const int kmax = (int)(sizeof(size_t) * 8) - 2;
     for (int sof = 0; sof < 2; ++sof)
         for (int k = 1; k <= kmax; ++k) {
             if (!mc_case("worst-case-macro-wide mode=%s n=2^%d-2..2^%d+2 (size_t and uint64_t arguments, plain and as expressions)",
@@ -1229,7 +1234,7 @@ family_macro(void)
                 continue;
             for (int d = -2; d <= 2; ++d) {
                 const size_t n = ((size_t)1 << k) + (size_t)(long)d;
-                if (n > (SIZE_MAX - 2) / 2)
+                if (n > SIZE_MAX / 4)
                     continue;
                 const size_t want = 2 * n + (sof ? 2 : 1);
                 const uint64_t n64 = n;
@@ -1631,7 +1636,8 @@ family_interrupt(const struct sset *one, const struct sset *two)
 }
 
 /* (h) the encoder in front of a sink that writes short, takes nothing,
- * interrupts or fails, per call position.  Hard error: returned unchanged.
+ * interrupts or fails, per call position.  Hard error: an error the sink
+ * answered is returned (never success, never a code the sink did not answer).
  * -EAGAIN/-EINTR: returned unchanged or retried.  Whenever encode reports
  * success, what reached the sink is a complete encoding of the payload. */
 static void
@@ -1649,14 +1655,24 @@ script_text(const signed char *sc, int ns, char *buf, size_t n)
 static void
 judge_scripted_encode(bool sof, bool initfn, const unsigned char *p, size_t n)
 {
+    /* "Sink errors are returned unchanged": a negative result is one of the
+     * codes the sink really answered in this execution - whichever of them
+     * when it answered several (an encoder that, after a first error, still
+     * tries to close the frame and meets a second error may report either). */
+    const bool answered_rc = (E.rc == -EAGAIN && (E.answered & ANS_BIT(A_EAGAIN)))
+        || (E.rc == -EINTR && (E.answered & ANS_BIT(A_EINTR)))
+        || (E.rc == -EIO && (E.answered & ANS_BIT(A_EIO)));
     if (E.hang) {
         mc_fail("C12/hang", "encode exceeded the driver call budget");
     } else if (E.answered & ANS_BIT(A_EIO)) {
-        if (E.rc != -EIO)
-            mc_fail("C12/sink-error-unchanged", "sink failed with -EIO, encode returned %s", errname(E.rc));
+        /* a hard error was answered: encode cannot report success, and what
+         * it reports is an error the sink answered */
+        if (!answered_rc)
+            mc_fail("C12/sink-error-unchanged", "sink failed with -EIO%s%s, encode returned %s",
+                    (E.answered & ANS_BIT(A_EAGAIN)) ? " and answered -EAGAIN" : "",
+                    (E.answered & ANS_BIT(A_EINTR)) ? " and answered -EINTR" : "", errname(E.rc));
     } else if (E.rc < 0) {
-        if (!((E.rc == -EAGAIN && (E.answered & ANS_BIT(A_EAGAIN)))
-              || (E.rc == -EINTR && (E.answered & ANS_BIT(A_EINTR)))))
+        if (!answered_rc)
             mc_fail("C12/encode-succeeds", "encode returned %s, the sink never answered that", errname(E.rc));
     } else {
         judge_complete_encoding(sof, initfn, p, n);
@@ -1871,18 +1887,20 @@ main(int argc, char **argv)
                 "encode faults at every driver call (payload <= 5) x {-EIO,-EPIPE,-EAGAIN,-EINTR}; decode faults at every driver call (sink: 4 codes, source: -EIO,-EPIPE) with decoding continued, streams = class strings <= 6 + frame pairs (payload <= 2) + frame triples (payload <= 1); "
                 "source interruptions {-EAGAIN,-EINTR}: one at every source call (class strings <= 7 + frame pairs + triples), two at every pair of source calls (class strings <= 5 + frame pairs + triples), x 2 set-ups; "
                 "encoder sink scripts: 1 deviation (payload <= 6) and 2 deviations (payload <= 4) over 2n+3 call slots x {short, zero, -EAGAIN, -EINTR, -EIO}, FIFO blocks 1..8 (payload <= 6); "
-                "worst-case macro n <= 1100 and 2^k-2..2^k+2 for k <= 63; ESC x all 256 second octets; all 65536 octet pairs, fills/ramps/cycles up to 1024"
+                "worst-case macro n <= 1100 and 2^k-2..2^k+2 (n <= SIZE_MAX/4) for k <= 62; ESC x all 256 second octets; all 65536 octet pairs, fills/ramps/cycles up to 1024"
               : "payloads and raw streams of length 0..7 over {41,c0,db,dc,dd}; pairs of payloads <= 3 x {fresh, reused init-function, reused static-initialiser context}; garbage <= 3 x (1-2 frames of payload <= 2, 3 frames of payload <= 1); "
                 "encode faults at every driver call (payload <= 3) x {-EIO,-EPIPE,-EAGAIN,-EINTR}; decode faults at every driver call (sink: 4 codes, source: -EIO,-EPIPE) with decoding continued, streams = class strings <= 5 + frame pairs (payload <= 2) + frame triples (payload <= 1); "
                 "source interruptions {-EAGAIN,-EINTR}: one at every source call (class strings <= 6 + frame pairs + triples), two at every pair of source calls (class strings <= 4 + frame pairs of payload <= 1), x 2 set-ups; "
                 "encoder sink scripts: 1 deviation (payload <= 4) and 2 deviations (payload <= 3) over 2n+3 call slots x {short, zero, -EAGAIN, -EINTR, -EIO}, FIFO blocks 1..8 (payload <= 5); "
-                "worst-case macro n <= 1100 and 2^k-2..2^k+2 for k <= 63; ESC x all 256 second octets; all 65536 octet pairs, fills/ramps/cycles up to 1024");
+                "worst-case macro n <= 1100 and 2^k-2..2^k+2 (n <= SIZE_MAX/4) for k <= 62; ESC x all 256 second octets; all 65536 octet pairs, fills/ramps/cycles up to 1024");
     return 0;
 }
 
 #else /* C12_ESTATE */
 /* ========================================================================= */
 /* E-STATE: search over the decoder context                                   */
+
+#define CTX_CAP 64
 
 /* a search node is the whole context image, not a selection of members */
 struct key {
@@ -2022,8 +2040,22 @@ main(int argc, char **argv)
      * contexts again and judges the interruptions.  So a run that stops at
      * the violation cap inside the interruption clause has judged everything
      * else before. */
+    /* The search is meant for a context whose image reaches a fixpoint after
+     * a handful of nodes.  If it does not (a context that counts what went
+     * through it never repeats), the search stops as soon as more than
+     * CTX_CAP images are known: no further image is recorded, the node in
+     * hand is finished (its cases are judged like any other), no further node
+     * is expanded, and pass 1 goes over the nodes pass 0 expanded only.  The
+     * cap is recorded (exhaustive = false); the run ends within seconds. */
+    bool capped = false;
+    int64_t expanded = 0; /* nodes pass 0 went through */
     for (int pass = 0; pass < 2; ++pass)
-    for (int64_t cur = 0; cur < (int64_t)set.n; ++cur) {
+    for (int64_t cur = 0; cur < (pass == 0 ? (int64_t)set.n : expanded); ++cur) {
+        if (pass == 0) {
+            if (capped)
+                break;
+            expanded = cur + 1;
+        }
         struct key k;
         memcpy(&k, mc_set_key(&set, cur), sizeof k);
         RFC1055Context kc;
@@ -2110,8 +2142,10 @@ main(int argc, char **argv)
                 if (len == 0 || (nfr > 0 && fr[nfr - 1].e == len))
                     nk.as_initial = 1;
             }
-            if (!R.hang && !R.overflow)
+            if (!R.hang && !R.overflow && !capped && pass == 0)
                 mc_set_add(&set, &nk, sizeof nk, cur, op, NULL);
+            if (set.n > CTX_CAP)
+                capped = true;
             if (!silent)
                 mc_end(len > 0, OUTCOME[initial ? 1 : 0][o->fkind]);
         }
@@ -2150,21 +2184,24 @@ main(int argc, char **argv)
             memcpy(nk.image, c, sizeof nk.image);
             nk.as_initial = 1;
             free(c);
-            mc_set_add(&set, &nk, sizeof nk, cur, NOPS + m, NULL);
+            if (!capped)
+                mc_set_add(&set, &nk, sizeof nk, cur, NOPS + m, NULL);
+            if (set.n > CTX_CAP)
+                capped = true;
             mc_end(false, "context-re-initialised");
         }
-        if (set.n > 64) {
-            mc_cap("context cap 64 hit");
-            break;
-        }
     }
+    if (capped)
+        mc_cap("context cap %d hit after %lld node(s): the context image does not reach a fixpoint within the cap; search stopped, %lld node(s) judged",
+               CTX_CAP, (long long)expanded, (long long)expanded);
     if (set.n <= 2)
         mc_cap("no context but the two initial ones was ever reached");
     mc.states += (int64_t)set.n;
-    char bound[400];
+    char bound[560];
     snprintf(bound, sizeof bound,
-             "every context image reachable from both initial contexts, every stream of length 0..%zu over {41,c0,db,dc,dd} decoded to exhaustion from each, fault-free and (length 0..%zu) with one driver failure at every call position (source -EAGAIN, source -EIO, sink -EIO) followed by continued use, to fixpoint (%zu contexts)",
-             maxlen, maxlen_faults, set.n);
+             "every context image reachable from both initial contexts, every stream of length 0..%zu over {41,c0,db,dc,dd} decoded to exhaustion from each, fault-free and (length 0..%zu) with one driver failure at every call position (source -EAGAIN, source -EIO, sink -EIO) followed by continued use, %s (%zu contexts known, %lld expanded; the search stops when more than %d are known)",
+             maxlen, maxlen_faults, capped ? "NO fixpoint within the context cap" : "to fixpoint", set.n,
+             (long long)expanded, CTX_CAP);
     mc_set_free(&set);
     mc_finish(true, bound);
     return 0;
